@@ -4,4 +4,5 @@ CONSTANTS
   MaxCount = 4
   AsCoded = TRUE
   Crashes = FALSE
+  Batched = TRUE
 INVARIANTS TypeOK InvLinked InvCountIsLength InvIndexExact InvById InvHeights InvRecords
